@@ -49,7 +49,7 @@ def mdValue : Value → Str
   | .int i => intStr i
   | .float r => r
   | .str s => s
-  | .holo _ => [opaqueMark]
+  | .holo raw => raw                   -- `return value.raw_pattern` (fix 80994f1; the CLI f-string still prints the repr)
   | .pydict _ => [opaqueMark]
 def mdItems : List Value → List Str
   | [] => []
@@ -85,7 +85,8 @@ mutual
 def mdNode (fmt : Value → Str) (level : Nat) : Node → List MdLine
   | .assign _ k v => [.bullet k (fmt v)]
   | .block _ k cs => .heading level k :: .blank :: mdChildren fmt (level + 1) cs
-  | _ => []
+  | .sect _ _ k cs => .heading level k :: .blank :: mdChildren fmt (level + 1) cs     -- `Block | Section` (fix ea3edea)
+  | .comment _ _ => []
 def mdChildren (fmt : Value → Str) (level : Nat) : List Node → List MdLine
   | [] => []
   | n :: ns => mdNode fmt level n ++ mdChildren fmt level ns
@@ -95,7 +96,8 @@ end
 def mdTop (fmt : Value → Str) : Node → List MdLine
   | .assign _ k v => [.para k (fmt v), .blank]
   | .block _ k cs => .heading 2 k :: .blank :: mdChildren fmt 3 cs
-  | _ => []
+  | .sect _ _ k cs => .heading 2 k :: .blank :: mdChildren fmt 3 cs
+  | .comment _ _ => []
 
 def mdMeta (fmt : Value → Str) (m : List (Str × Value)) : List MdLine :=
   if m.isEmpty then []
